@@ -118,6 +118,8 @@ var c12Prologues = []struct{ name, text string }{
 	{"textarea-fake", `<html><body><textarea><meta charset="fake"></textarea>`},
 	{"other-metas", `<html><head><meta name="viewport" content="width=device-width"><meta name="description" content="charset=fake"><meta http-equiv="refresh" content="5">`},
 	{"pragma-without-charset", `<html><head><meta http-equiv="Content-Type" content="text/html">`},
+	{"pragma-without-charset-then-description", `<html><head><meta http-equiv="Content-Type" content="text/html"><meta name="description" content="charset=fake">`},
+	{"description-then-pragma-without-charset", `<html><head><meta name="keywords" content="a, charset=fake"><meta http-equiv="Content-Type" content="text/html">`},
 	{"leading-ws", "\n \t<html>\n<head>\n"},
 	{"body-text", `<html><body><p>some text, charset=fake, meta</p>`},
 	{"utf8-bom", "\xEF\xBB\xBF<html><head>"},
